@@ -24,7 +24,7 @@ RULE = ('(a) a fixed battery plus seeded random strings over the XML Char range 
         'text / verdict / acceptance vector must agree. (c) nested documents (3+ levels) generated from the reference grammar: '
         'the whole tree and a subtree are serialised before and between 1-3 API mutations of nodes anywhere below (attribute, '
         'value, child added / removed); a twin that is never serialised before the end must give the same final text or '
-        'refusal. (d) value kinds: the text written for an int / float in integer- and decimal-typed positions must not depend '
+        'refusal. (e) nested documents assembled in document / reversed / shuffled order: a root that refuses must have a node that refuses on its own under the same flag, and where the root serialises the serialisation of every node alone is contained in it. (d) value kinds: the text written for an int / float in integer- and decimal-typed positions must not depend '
         'on an equal value of the other kind serialised earlier (digits masked, fresh numbers). non-trivial = accepted '
         'string (a) / history with a successful serialisation (b) / document whose first serialisation succeeds (c) / pair '
         'of accepted values (d)')
@@ -43,6 +43,7 @@ def plan(tier, seed):
     out = [{'mode': 'strings', 'slice': i, 'cost': 2000} for i in range(NSLICES)]
     out += [{'mode': 'nested', 'slice': i, 'cost': 2500} for i in range(NSLICES)]
     out += [{'mode': 'kinds', 'slice': i, 'cost': 1000} for i in range(2)]
+    out += [{'mode': 'subtrees', 'slice': i, 'cost': 2000} for i in range(NSLICES)]
     for s in _histcheck.plan(lambda t: (len(ref.DFAS[t].alphabet) * (8 if tier == 'quick' else 8 * len(ref.DFAS[t].alphabet)) + 200) * max(1, len(ref.DFAS[t].alphabet) // 2)):
         s['mode'] = 'hist'
         out.append(s)
@@ -363,7 +364,131 @@ def run_kinds(shard, tier, seed):
             'counters': dict(c, integer_positions=len(ints), decimal_positions=len(decs))}
 
 
+def run_subtrees(shard, tier, seed):
+    """a tree serialises iff its subtrees do: nested documents assembled with the children of every level in document /
+    reversed / shuffled order; if to_string(flag) of the root refuses although afterwards every node of the tree serialises on
+    its own under the same flag (leaves first), the refusal was not attributable to any node. Where the root serialises, every
+    node's own serialisation must be contained in it (indentation aside)."""
+    from .. import lib, docs
+    from . import c01, c14
+    rnd = random.Random('%s:C16:subtrees:%d' % (seed, shard['slice']))
+    viol = []
+    c = collections.Counter()
+    evals = 0
+    nontriv = 0
+    names = [n for i, n in enumerate(ref.ELEMENT_NAMES) if i % NSLICES == shard['slice'] and ref.eltype(n) in ref.DFAS]
+    # elements that serialise ONLY with intelligent_choice=True (every sequence of <= 2 additions, thorough <= 3), placed in a
+    # checked, otherwise complete parent: the parent serialised with the flag must succeed like the element alone
+    import itertools
+    for t in [x for i, x in enumerate(sorted(ref.DFAS)) if i % NSLICES == shard['slice']]:
+        d = ref.DFAS[t]
+        cls = lib.TYPES[t]
+        own = next((n for n in ref.ELEMENT_NAMES if ref.eltype(n) == t and lib.cls_of_element(n) is cls), None)
+        if own is None:
+            continue
+
+        def build(w):
+            e = lib.make(cls, check=True, with_required=True)
+            for s_ in w:
+                if lib.call(e.add_child, lib.make(lib.child_cls(s_)))[0] == 'exc':
+                    return None
+            return e
+        parent = None
+        for k in range(1, (2 if tier == 'quick' or len(d.alphabet) > 12 else 3) + 1):
+            for w in itertools.product(d.alphabet, repeat=k):
+                e1 = build(w)
+                if e1 is None or lib.call(e1.to_string)[0] == 'ok':
+                    continue
+                e2 = build(w)
+                if lib.call(e2.to_string, True)[0] == 'exc':
+                    continue
+                c['elements_that_need_the_flag'] += 1
+                if parent is None:
+                    parent = False
+                    for pn in ref.ELEMENT_NAMES:
+                        pt = ref.eltype(pn)
+                        if pt in ref.DFAS and pt != t and own in ref.DFAS[pt].alpha:
+                            comp = ref.DFAS[pt].completion([own])
+                            if comp is not None:
+                                parent = (pn, comp)
+                                break
+                if not parent:
+                    continue
+                e3 = build(w)
+                P = lib.make(lib.cls_of_element(parent[0]), check=True, with_required=True)
+                used = False
+                okp = True
+                for s_ in parent[1]:
+                    ch = e3 if (s_ == own and not used) else lib.make(lib.child_cls(s_))
+                    used = used or s_ == own
+                    if lib.call(P.add_child, ch)[0] == 'exc':
+                        okp = False
+                        break
+                if not okp:
+                    continue
+                evals += 1
+                nontriv += 1
+                r = lib.call(P.to_string, True)
+                c['flag_needing_elements_nested'] += 1
+                if r[0] == 'exc':
+                    viol.append({'sig': {'kind': 'tree-refused-although-every-subtree-serialises', 'intelligent_choice': 'on',
+                                         'exc': type(r[1]).__name__, 'type': t},
+                                 'case': {'type': t, 'word': list(w), 'parent': parent[0], 'mode': 'nested-flag', 'ic': True},
+                                 'detail': {'msg': str(r[1])[:160]}})
+    per = 3 if tier == 'quick' else 30
+    for n in names:
+        for k in range(per):
+            el = ref.gen_el(n, rnd, (ref.HEIGHT[n] or 0) + rnd.choice([1, 2, 3]), {
+                'pattr': 0.2, 'maxkids': rnd.choice([3, 6]), 'skip_attrs': ('xml:lang', 'xml:space', 'name'),
+                'skip_elements': ('link', 'opus', 'part-link', 'miscellaneous-field')})
+            mode = rnd.choice(['shuffle', 'shuffle', 'reverse', 'document'])
+            for ic in (False, True):
+                state = rnd.getstate()
+                try:
+                    obj = c01.build_nested(el, lib, docs, rnd, mode, c)
+                except docs.BuildRefused:
+                    c['builder_refused'] += 1
+                    break
+                if not ic:
+                    rnd.setstate(state)           # the same insertion order for both flags
+                evals += 1
+                r = lib.call(obj.to_string, ic)
+                nodes = c14.nodes_of(obj)
+                if r[0] == 'exc':
+                    # leaves first, so that a node is asked before its ancestors
+                    each = [lib.call(x.to_string, ic) for x in reversed(nodes)]
+                    c['root_refusals_examined'] += 1
+                    if all(x[0] == 'ok' for x in each):
+                        viol.append({'sig': {'kind': 'tree-refused-although-every-subtree-serialises',
+                                             'intelligent_choice': 'on' if ic else 'off', 'exc': type(r[1]).__name__},
+                                     'case': {'text': docs.to_text(el)[:3000], 'mode': mode, 'ic': ic},
+                                     'detail': {'msg': str(r[1])[:160]}})
+                    continue
+                nontriv += 1
+                c['trees_serialised'] += 1
+                whole = dedent(r[1])
+                for x in nodes[1:]:
+                    rx = lib.call(x.to_string, ic)
+                    if rx[0] == 'exc':
+                        viol.append({'sig': {'kind': 'subtree-refused-inside-a-tree-that-serialises',
+                                             'intelligent_choice': 'on' if ic else 'off', 'exc': type(rx[1]).__name__},
+                                     'case': {'text': docs.to_text(el)[:3000], 'mode': mode, 'ic': ic}, 'detail': {'node': x.name}})
+                        break
+                    if dedent(rx[1]) not in whole:
+                        viol.append({'sig': {'kind': 'subtree-differs-inside-parent', 'position': 'nested',
+                                             'intelligent_choice': 'on' if ic else 'off'},
+                                     'case': {'text': docs.to_text(el)[:3000], 'mode': mode, 'ic': ic},
+                                     'detail': {'node': x.name, 'alone': rx[1][:160]}})
+                        break
+                    c['subtrees_compared'] += 1
+    return {'evaluations': evals, 'distinct_nontrivial': nontriv, 'violations': viol,
+            'samples': [{'root': names[0] if names else None, 'subtrees_compared': c['subtrees_compared']}],
+            'counters': dict(c, stdio_events=len(lib.STDIO_EVENTS))}
+
+
 def run_shard(shard, tier, seed):
+    if shard['mode'] == 'subtrees':
+        return run_subtrees(shard, tier, seed)
     if shard['mode'] == 'strings':
         return run_strings(shard, tier, seed)
     if shard['mode'] == 'nested':
@@ -386,6 +511,8 @@ def run_shard(shard, tier, seed):
 def replay_case(rp):
     from .. import lib
     c = rp['case']
+    if 'mode' in c and 'ic' in c:
+        return {'violated': None, 'note': 'subtree cases depend on the shuffle; rerun the subtrees shards with the recorded seed'}
     if 'mseeds' in c:
         res = _nested_case(ET.fromstring(c['text'].split('?>', 1)[1]), lib, c['mseeds'], c['sub_index'])
         return {'violated': res not in (None, 'inconclusive'), 'result': res}
